@@ -123,6 +123,37 @@ func newE3(c *Ctx, reverse bool) *E3 {
 			}
 		}
 	}
+	// instances of the package's generic helpers are functions of the package too (go/ssa gives them no package); the
+	// uninstantiated bodies are never called and are left out
+	for i := 0; i < len(a.fns); i++ {
+		var all []*ssa.Function
+		all = append(all, a.fns[i])
+		for j := 0; j < len(all); j++ {
+			all = append(all, all[j].AnonFuncs...)
+		}
+		for _, f := range all {
+			for _, b := range f.Blocks {
+				for _, in := range b.Instrs {
+					if ci, ok := in.(ssa.CallInstruction); ok {
+						if cal := ci.Common().StaticCallee(); cal != nil && cal.Origin() != nil && cal.Origin().Pkg == spkg && cal.Parent() == nil && !seen[cal] {
+							seen[cal] = true
+							a.fns = append(a.fns, cal)
+						}
+					}
+				}
+			}
+		}
+	}
+	{
+		var keep []*ssa.Function
+		for _, f := range a.fns {
+			if f.TypeParams().Len() > 0 && len(f.TypeArgs()) == 0 {
+				continue
+			}
+			keep = append(keep, f)
+		}
+		a.fns = keep
+	}
 	sort.Slice(a.fns, func(i, j int) bool { return a.fns[i].String() < a.fns[j].String() })
 	if reverse {
 		for i, j := 0, len(a.fns)-1; i < j; i, j = i+1, j-1 {
@@ -337,6 +368,15 @@ func slotArgs(callee *ssa.Function, args []ssa.Value) []ssa.Value {
 	return append([]ssa.Value{nil}, args...)
 }
 
+// inPkg: a function of the analysed package, a closure in one, or an instance of one of its generic functions.
+func (a *E3) inPkg(f *ssa.Function) bool {
+	r := rootOf(f)
+	if r.Pkg == a.pkg {
+		return true
+	}
+	return r.Origin() != nil && r.Origin().Pkg == a.pkg
+}
+
 func callArgs(c *ssa.CallCommon) []ssa.Value {
 	if c.IsInvoke() {
 		return append([]ssa.Value{c.Value}, c.Args...)
@@ -390,7 +430,7 @@ func (a *E3) doCall(fn *ssa.Function, instr ssa.Instruction, c *ssa.CallCommon, 
 		return
 	}
 	for _, callee := range cs {
-		if callee.Pkg != a.pkg && rootOf(callee).Pkg != a.pkg {
+		if !a.inPkg(callee) {
 			// external: functions of sort/slices that reorder their argument
 			if callee.Pkg != nil && (callee.Pkg.Pkg.Path() == "sort" || callee.Pkg.Pkg.Path() == "slices") && len(args) > 0 {
 				for _, ar := range args {
@@ -824,7 +864,7 @@ func (a *E3) calleeNames(fn *ssa.Function) []string {
 			for _, in := range b.Instrs {
 				if ci, ok := in.(ssa.CallInstruction); ok {
 					for _, cal := range a.Callees(ci.Common()) {
-						if cal.Pkg == a.pkg && a.sum[cal] != nil {
+						if a.inPkg(cal) && a.sum[cal] != nil {
 							set[a.FuncName(cal)] = true
 						}
 					}
